@@ -144,6 +144,11 @@ func c17Gen(t *rapid.T) C17Case {
 	}
 	c.Count = pick(t, "count", c17Counts...)
 	c.Match = pick(t, "match", c17Patterns...)
+	if rapid.IntRange(0, 5).Draw(t, "literal") == 0 {
+		// patterns without a wildcard that name one stable element: plain, with escapes, with a one-character class
+		lit := fmt.Sprintf("s%d.%d", rapid.IntRange(0, 3).Draw(t, "litn"), c.Salt)
+		c.Match = pick(t, "litform", lit, "\\"+lit, lit[:1]+"\\"+lit[1:], strings.Replace(lit, ".", "\\.", 1), "["+lit[:1]+"]"+lit[1:], lit[:len(lit)-1]+"\\"+lit[len(lit)-1:], lit+"\\")
+	}
 	if c.Kind == "keys" && rapid.IntRange(0, 3).Draw(t, "typed") == 0 {
 		c.Type = pick(t, "type", c17Types...)
 	}
